@@ -206,6 +206,10 @@ EXT.update({
     'scipy.ndimage.label': _row('fresh', 'lambda a: ndi.label(a > 0)'),
     'scipy.ndimage.find_objects': _row('fresh', 'lambda a: ndi.find_objects((a > 0).astype(int))'),
     'tqdm.tqdm': _row('maybe'), 'tqdm.auto.tqdm': _row('maybe'), 'tqdm.notebook.tqdm': _row('maybe'),
+    'scipy.interpolate.RectBivariateSpline': _row('join'),
+    'scipy.interpolate.RectBivariateSpline.__call__': _row(
+        'fresh', 'lambda a: RectBivariateSpline(np.arange(6.), np.arange(7.), np.arange(42.).reshape(6, 7))('
+                 'np.abs(a.ravel()[:5].astype(float)), np.abs(a.ravel()[:5].astype(float)), grid=False)'),
     'scipy.interpolate.PchipInterpolator': _row('join'),
     'scipy.interpolate.PchipInterpolator.__call__': _row('fresh', 'lambda a: PchipInterpolator(np.arange(a.size), a.ravel())(a.ravel())'),
     'photutils.utils._stats.nansum': _row('fresh', 'lambda a: pstats.nansum(a, axis=0)'),
@@ -655,6 +659,8 @@ class Translator:
         key = f'{F.cls.key}.self.{name}'
         if key not in self.tr_attrs:
             self.tr_attrs[key] = self.newvar(key)
+            if name in self.own_attr_names:
+                self.own_containers = set(self.own_containers) | {self.tr_attrs[key]}
         return self.tr_attrs[key]
 
     tr_attrs = None
@@ -1036,7 +1042,7 @@ class Translator:
             self.expr(F, t.slice)
             if o is None:
                 self.fail(F, t, 'item store on a value without buffers')
-            if o not in F.containers:
+            if o not in F.containers and o not in self.own_containers:
                 self.emit(('InPlace', o))
             if v is not None and o not in F.arrays:
                 self.emit(('Assign', o, ('EJoin', [o, v])))      # a container / object array keeps a reference
@@ -1275,10 +1281,17 @@ class Translator:
         prot = [i for nm, i in zip(names, ids) if protect is None or nm in protect]
         return prot, dict(zip(names, ids)), prog
 
-    def methods(self, modname, cname, only):
+    def methods(self, modname, cname, only, own=()):
         """IR of selected methods of a class taken alone (no constructor): everything stored on
-        `self` is treated as caller-supplied, like the parameters."""
+        `self` is treated as caller-supplied, like the parameters - except the attributes named in
+        `own`, which are the object's private cache containers (recorded as an assumption)."""
+        self.own_attr_names = tuple(own)
+        for nm in own:
+            self.assumed.add(f'own:{cname}.{nm} is a private cache container of the object, not caller data')
         return self.lifecycle(modname, cname, only=tuple(only))
+
+    own_attr_names = ()
+    own_containers = frozenset()
 
     def lifecycle(self, modname, cname, only=None):
         """IR of a class life cycle:  __init__ ; Loop (one of the methods / lazy properties)."""
@@ -1331,7 +1344,7 @@ class Translator:
         prog = ('Seq', init, ('Loop', cur))
         if only is not None:
             for k, v in self.tr_attrs.items():
-                if k != '$out':
+                if k != '$out' and k.split('.self.')[-1] not in self.own_attr_names:
                     params['self:' + k] = v
         return list(params.values()), params, prog
 
